@@ -370,10 +370,12 @@ class C20(Prop):
             "K covers every case whose program desugars to the model's constructs (gen_c20 header); O-only: walrus inside "
             "comprehension/lambda, PEP 695 generics, type comments that are read, code object of a whole program, unused-import mode. "
             "non-trivial = at least one recorded event or one reported name; distinct by code+namespaces+registry")
-    trusted_base = ["the trap classes of harness/c20.py record every attribute access except `__class__` (the isinstance() fallback, "
-                    "stated outside the quantifier); plain ints/None cannot record",
+    trusted_base = ["the trap classes of harness/c20.py record every attribute access; `__class__` is recorded by the kind `trap_cls` "
+                    "(a `__class__` property; known finding H2 until fixes/C20-H2.diff is applied) and let through by the other kinds' "
+                    "`__getattribute__`; plain ints/None cannot record, a dead weakref.proxy raises ReferenceError on any read",
                     "debug logging stays off (repr of namespace values under DEBUG is outside the quantifier)"]
-    assumptions = ["namespaces are real dicts with str keys (dict subclasses with user __getitem__/__missing__ are not in the quantifier)",
+    assumptions = ["namespaces are dicts or dict subclasses (collections.defaultdict, a subclass with a recording `__missing__`: known "
+                   "finding H3 until fixes/C20-H3.diff is applied) with str keys; K skips dict-subclass cases on a tree without the repair",
                    "the theorems hold for the unchanged analysis and for the analysis carrying the proposed C05 repairs (all `Fixes`)"]
     anchors = [
         ("lib/python/pyflyby/_autoimp.py", "ScopeStack"),
